@@ -249,6 +249,53 @@ theorem canon_known_node (cx : DirCtx Key) (hm : cx.mutableDir = true) (hw : cx.
     simp [canon, hm, hw, stripPrefixForRo, hp3, hp4, hrf0, hnone, createFromCap, hrfe, orNone, fromString,
       hrf, htn]
 
+/-- A child whose write cap is in an unknown (future) format next to a read cap of a *known* format stays an
+    `UnknownNode` holding both: `create_from_cap` decides on `writecap or readcap` — the unknown write cap — and
+    never falls back to the readable read cap, so `canon` is the identity on such a child (`rw` slot kept, `ro`
+    slot kept with its `ro.` allegation) in a mutable directory read through its write handle. -/
+theorem canon_unknown_rw_known_ro (cx : DirCtx Key) (hm : cx.mutableDir = true) (hw : cx.writeable = true)
+    (rw rf : Bytes) (m : Bool)
+    (hrw : W.classify rw = .unknown) (hrw0 : rstripOrNone rw = some rw)
+    (hp1 : startsWith rw immPrefix = false) (hp2 : startsWith rw roPrefix = false)
+    (hrf : W.classify rf = .known m false rf rf) (hrf0 : rstripOrNone rf = some rf)
+    (hp3 : startsWith rf immPrefix = false) (hp4 : startsWith rf roPrefix = false) :
+    canon W cx ⟨true, some rw, some (roPrefix ++ rf), false, false⟩ =
+      ⟨true, some rw, some (roPrefix ++ rf), false, false⟩ := by
+  have hrwe : truthy (some rw) = true := by
+    cases rw with
+    | nil => simp [rstripOrNone, rstrip] at hrw0
+    | cons a t => rfl
+  have hrfe : truthy (some rf) = true := by
+    cases rf with
+    | nil => simp [rstripOrNone, rstrip] at hrf0
+    | cons a t => rfl
+  have hs1 : startsWith (roPrefix ++ rf) immPrefix = false := by
+    simp [startsWith, roPrefix, immPrefix, List.isPrefixOf]
+  have hs2 : startsWith (roPrefix ++ rf) roPrefix = true := by
+    simp [startsWith, roPrefix, List.isPrefixOf]
+  have hstrip : stripPrefixForRo (roPrefix ++ rf) false = rf := by
+    unfold stripPrefixForRo
+    rw [hs1, hs2]
+    simp [roPrefix]
+  have hfs : fromString W.classify rf false = .known m false rf rf := by
+    cases m <;> simp [fromString, hp3, hp4, hrf]
+  have hfw : fromString W.classify rw false = .unknownOk := by
+    simp [fromString, hp1, hp2, hrw]
+  simp only [canon, hm, hw, Option.getD_some, if_true, Bool.not_true, hstrip, hrw0, hrf0, createFromCap, hrwe,
+    orNone, hfw, Bool.false_eq_true, if_false, mkUnknown, hrfe, Bool.false_and, hp3, hfs]
+  simp [hp3, hp4]
+
+/-- … hence `pack ∘ unpack ∘ pack` preserves both cap slots: whenever `canon` fixes a node (known nodes —
+    `canon_known_node`; a future write cap next to a known read cap — `canon_unknown_rw_known_ro`), the entry that
+    the second-generation pack writes for the unpacked child (after `set_metadata_for`, an overwriting add or a
+    move dropped its cached raw entry) has the same rwcapdata and ro_uri fields, byte for byte. -/
+theorem repack_preserves_both_slots (cx : DirCtx Key) (n : Node) (hfix : canon W cx n = n) (name : Name) (md : J)
+    (a a' : Option Bytes) :
+    entryBytes W cx.writekey (!cx.mutableDir) name ⟨canon W cx n, md, a⟩ =
+      entryBytes W cx.writekey (!cx.mutableDir) name ⟨n, md, a'⟩ := by
+  rw [hfix]
+  rfl
+
 /-- What the round trip does to caps with two alleged-prefixes (the open finding `roundtrip-double-prefix`):
     an unknown node whose read cap is `ro.ro.X`, with `X` a known write cap, is packed without complaint,
     but `canon` of it records an error, so `_unpack_contents` drops the child. -/
